@@ -399,7 +399,7 @@ def run_property(prop, tier="quick", seed=0, repo_root=None, only=None):
         ctx.cleanup()
 
 
-PROOF_ANNOTATION = re.compile(r":(init|preserve):|::call-pre:|:decreases\b|::(ensures|exc-frame):shape:")
+PROOF_ANNOTATION = re.compile(r":(init|preserve):|::call-pre:|:decreases\b|::(ensures|exc-frame):shape:|::divisor-positive@")
 
 
 def handle_refuted(ctx, pm, o, known, status, candidate=False):
